@@ -180,7 +180,27 @@ class Table:
             for lab, r in self.name_bool.items():
                 if r.search(key):
                     return lab
+            # a condition kept in a named local (`let bypassed = self.endpoint_bypass.contains_key(..); bypassed || ..`): label it by its definition
+            m = re.match(r"^(\w+(?:~\d+)?)( is \w+)?$", key)
+            if m and m.group(1) in self._named_defs():
+                txt = self._named_defs()[m.group(1)] + (m.group(2) or "")
+                for lab, r in self.name_bool.items():
+                    if r.search(txt):
+                        return lab
         return None
+
+    def _named_defs(self):
+        """named non-parameter locals with exactly one whole definition -> text of that definition (substituted)"""
+        if getattr(self, "_nd", None) is None:
+            from .cfg import Slicer
+            sl = Slicer(self.body)
+            params = set(self.body.names.get(l) for l in range(1, self.body.argc + 1))
+            self._nd = {}
+            for name, defs in sl.var_defs().items():
+                whole = [d for d in defs if d[0] == ""]
+                if name not in params and len(defs) == 1 and len(whole) == 1:
+                    self._nd[name] = show(strip(sl.expand(whole[0][1])), 300)
+        return self._nd
 
     def _collect(self):
         """all canonical conditions in the body, labelled"""
